@@ -12,6 +12,7 @@ def confirm(sd):
     meta = json.load(open(os.path.join(sd, "meta.json")))
     instr = meta["demo_instructions"]
     instr = re.sub(r"<repo[^>]*>/", "", instr)
+    instr = re.sub(r"/tmp/wt\d*_C\d+/", "", instr)          # the agent's own worktree: paths are relative to the repo root
     cps = re.findall(r"cp\s+(\S+)\s+([\w/.]+/)", instr)
     m = re.search(r"(go1?\.?2?6?\s*test\s+-vet=off[^;#(\n]*)", instr)
     if not cps or not m:
@@ -28,9 +29,11 @@ def confirm(sd):
             rc, out = sh("go build ./... && go test -vet=off -count=1 ./...", wt)
             if rc == 0: break
         if rc: return "existing suite fails with change: " + out[-800:]
+        import glob as _glob
         for src, dst in cps:
-            src = src.replace("/tmp/seeds/", os.path.dirname(os.path.dirname(sd)) + "/") if not os.path.exists(src) else src
-            shutil.copy(src, os.path.join(wt, dst))
+            src = src.replace("/tmp/seeds/", os.path.dirname(os.path.dirname(sd)) + "/") if not (os.path.exists(src) or _glob.glob(src)) else src
+            for one in (_glob.glob(src) or [src]):
+                shutil.copy(one, os.path.join(wt, dst))
         rc1, out1 = sh("timeout 300 " + gotest, wt)
         if rc1 == 0: return "demo PASSES with the change (expected failure)"
         sh("git apply -R %s/patch.diff" % sd, wt)
